@@ -16,7 +16,7 @@ pub fn def() -> CheckDef {
 fn meta(_ctx: &Ctx) -> Meta {
     Meta {
         level: "exploration",
-        rule: "bounded-exhaustive component tuples (names over {a,1,.,-,_} up to length 3 starting alphanumeric; epoch in {\"\",0,1,12}; version and release non-empty over {a,1,.,~,^} up to length 2; arch in {x,x86_64,noarch,a1}) + seeded random tuples with components up to length 12 + the NEVRAs of the repository's asset packages: format with Display / as_normalized_form / nvra, parse again, compare component-wise with the tuple itself; every CompressionType through Display->FromStr; no-panic on all strings up to length 5 over {-,.,:,a,é} and on random text. distinct_nontrivial = distinct tuples/strings".into(),
+        rule: "bounded-exhaustive component tuples (names over {a,1,.,-,_} up to length 3 starting alphanumeric; epoch in {\"\",0,1,12,2^31-1,2^31,2^32-1}; version and release non-empty over {a,1,.,~,^} up to length 2; arch in {x,x86_64,noarch,a1}) + seeded random tuples with components up to length 12 + the NEVRAs of the repository's asset packages: format with Display / as_normalized_form / nvra, parse again, compare component-wise with the tuple itself; every CompressionType through Display->FromStr; no-panic on all strings up to length 5 over {-,.,:,a,é} and on random text. distinct_nontrivial = distinct tuples/strings".into(),
         assumptions: vec!["real-package component constraints (rpm's own): name has no ':', version/release have no '-' or ':', arch has no '-', '.' or ':', epoch is digits or empty, all but epoch non-empty".into()],
         floor_distinct: 1000,
     }
@@ -104,7 +104,7 @@ fn rand_comp(r: &mut Rng, alpha: &[char], min: usize, max: usize, first_alnum: b
 fn run(ctx: &Ctx, rep: &Report) {
     let names: Vec<String> = enumerate(&["a", "1", ".", "-", "_"], 3).into_iter().filter(|n| n.as_bytes()[0].is_ascii_alphanumeric()).collect();
     let comps = enumerate(&["a", "1", ".", "~", "^"], 2);
-    let epochs = ["", "0", "1", "12"];
+    let epochs = ["", "0", "1", "12", "2147483647", "2147483648", "4294967295"];
     let arches = ["x", "x86_64", "noarch", "a1"];
     rep.count("names", names.len() as u64);
     rep.count("version_release_components", comps.len() as u64);
@@ -170,6 +170,7 @@ fn run(ctx: &Ctx, rep: &Report) {
             let e = match rng.below(4) {
                 0 => String::new(),
                 1 => "0".to_string(),
+                2 => (*rng.pick(&[i32::MAX as u64 - 1, i32::MAX as u64, i32::MAX as u64 + 1, u32::MAX as u64 - 1, u32::MAX as u64, 3_000_000_000])).to_string(),
                 _ => rng.below(100000).to_string(),
             };
             let v = rand_comp(&mut rng, &ver_alpha, 1, 12, false);
